@@ -6,6 +6,8 @@ import (
 	"strings"
 	"sync"
 	"time"
+
+	"github.com/jig/lisp/types"
 )
 
 // Calibration of the error classifier.
@@ -42,7 +44,28 @@ func probeMsg(ctx context.Context, src string) string {
 	if _, thrown := ErrorValue(o.Err); thrown {
 		return ""
 	}
-	return stripPos(o.Err.Error())
+	return ErrorCore(o.Err)
+}
+
+// ErrorCore is the message of the innermost error an interpreter error carries: interpreter errors wrap the Go error
+// they report (ErrorValue) and prefix its text with a source position whose notation is not fixed by any property;
+// the wrapped error's own text has no such prefix. Falls back to the text with a leading §-position removed.
+func ErrorCore(err error) string {
+	for i := 0; i < 8 && err != nil; i++ {
+		ev, ok := err.(interface{ ErrorValue() types.MalType })
+		if !ok {
+			break
+		}
+		inner, isErr := ev.ErrorValue().(error)
+		if !isErr || inner == nil {
+			break
+		}
+		err = inner
+	}
+	if err == nil {
+		return ""
+	}
+	return stripPos(err.Error())
 }
 
 func commonPrefix(a, b string) string {
